@@ -197,3 +197,31 @@ def register(claim):
                'counts with verify_df, detection files byte for byte with detect_df; discover -> verify closure; exit statuses.',
           note=NOTE_COMMON + ' Known finding D30 (-a with -f, -r with -R accepted).',
           ref='DESIGN.md section 5, C17')
+    claim('C11',
+          technique='TLA+ file-system model of tdda gentest (Gentest.tla: Generate / Perturb / RunGeneratedTest over paths -> content ids, '
+                    'invariants NoClobber, ScriptExists, ScriptPasses) and a case analysis of the date detector (DateLike.tla), TLC '
+                    'exhaustive; DateLike case table replayed on the real is_date_like; real gentest sessions in scratch directories '
+                    'recorded (directory snapshots, py_compile, verdict of every generated test) and judged by Trace_Gentest, whose '
+                    'variables are bound to the observed directory',
+          text='TLC explores every directory x behaviour x option combination of the small model (2 outputs, 2 other files, 3 contents) '
+               'and every triple of numbers 0..32 / years for the date detector (never raises; pinned pre-fix model raises).  56/400 '
+               'real sessions per run: commands printing plain, date-, time-, version-, path-like, host/user/cwd, quote, backslash, '
+               'regex-metacharacter and unicode lines, 0..2 output files (text, binary, one under $TMPDIR) given by directory, name or '
+               'glob, exit 0/3, -n 1..3, --no-stdout/--no-stderr/--non-zero-exit, relative/absolute script names, with pre-existing '
+               'unrelated files (also with an old mtime), stale script and reference directory, same-named outputs.  Each session: '
+               'snapshot, real `python -m tdda.referencetest.gentest`, snapshot, compile, run the script, snapshot; NoClobber is evaluated '
+               'after generation and after the run of the generated test, and every test in the script (not only the expected ones) must pass.',
+          note=NOTE_COMMON + ' Known finding D19b (binary output with an unknown extension and -n 1).  D14 and D32 were repaired.',
+          ref='DESIGN.md section 5, C11')
+    claim('C12',
+          technique='TLA+ file-system model of tdda gentest (Gentest.tla, invariant Teeth: after one change the test of the changed thing '
+                    '- and only that one - does not pass; vacuity config without removal of previous outputs violates it), TLC exhaustive; '
+                    'real sessions generate, perturb the command one change at a time, run the generated script, restore, run again, '
+                    'all recorded and judged by Trace_Gentest',
+          text='42/300 sessions x 2/3 perturbations drawn on a fixed rotation (file no longer produced, stream edited, file edited, exit '
+               'status changed): a character of the first line changed (never inside a date, so far-past / far-future dates stay on the '
+               'line), a line added or removed, a byte of a binary file changed, a cwd file no longer produced (with and without a '
+               'second output under $TMPDIR), exit status 0 <-> 3.  After each: the verdict of every generated test is bound to the '
+               'model and Teeth is evaluated; after restoring the behaviour ScriptPasses is evaluated again.',
+          note=NOTE_COMMON + ' Known finding D19b (binary output with an unknown extension and -n 1: spurious error of the binary file test).',
+          ref='DESIGN.md section 5, C12')
